@@ -407,7 +407,7 @@ def comma_locale(workdir):
 
 
 def actual(items, w2c2, workdir, cc="gcc", cflags=("-O1",), batch=24, w2c2_opts=(), run_timeout=120, w2c2_env=None,
-           extra_defs=(), keep=False, extra_srcs=(), localize=True):
+           extra_defs=(), keep=False, extra_srcs=(), localize=True, run_env=None):
     """Translate, compile and run.  Returns (obs dict keyed (id,k), problems list).
     problems: [(kind, item ids, text)] for translate/compile/run failures (observations in
     their own right for C10/C11; machinery trouble otherwise)."""
@@ -506,7 +506,7 @@ def actual(items, w2c2, workdir, cc="gcc", cflags=("-O1",), batch=24, w2c2_opts=
             problems.append(("compile", [it["id"] for it in good], err[-3000:]))
             return []
         # the harness does not release what it allocates as the embedder (host memories and tables): no leak reports
-        rc, out, err = run([exe], timeout=run_timeout, cwd=d, env={"ASAN_OPTIONS": "detect_leaks=0"})
+        rc, out, err = run([exe], timeout=run_timeout, cwd=d, env=dict({"ASAN_OPTIONS": "detect_leaks=0"}, **(run_env or {})))
         recs = []
         for l in out.splitlines():
             try:
@@ -524,6 +524,13 @@ def actual(items, w2c2, workdir, cc="gcc", cflags=("-O1",), batch=24, w2c2_opts=
         for bn in range(len(batches)):
             shutil.rmtree(os.path.join(workdir, "b%d" % bn), ignore_errors=True)
     return obs, problems
+
+
+# A hostile but conforming C library, obtained from AddressSanitizer's allocator: malloc'ed and realloc'ed bytes are not zero
+# (0xA5 up to 256 MiB), realloc always moves, released blocks are poisoned, memcpy between overlapping ranges is reported.
+# Code that relies on what malloc/realloc/memcpy happen to do in glibc, but do not promise, shows here.
+HOSTILE_LIBC = {"name": "gcc-O1-asan-hostile-libc", "cc": "gcc", "cflags": ("-O1", "-g", "-fsanitize=address", "-fno-omit-frame-pointer"),
+                "run_env": {"ASAN_OPTIONS": "detect_leaks=0:malloc_fill_byte=165:max_malloc_fill_size=268435456:free_fill_byte=221:max_free_fill_size=268435456"}}
 
 
 # ------------------------------------------------------------------ comparison
@@ -634,7 +641,8 @@ def replay(verdict, items, builds, sigfn=None, w2c2_flags=("-O1",), workdir=None
             return actual([dict(i) for i in usable], w2c2, os.path.join(wd, "run-" + b["name"]),
                           cc=b.get("cc", "gcc"), cflags=b.get("cflags", ("-O1",)),
                           extra_defs=b.get("defs", ()), w2c2_opts=b.get("w2c2_opts", ()),
-                          extra_srcs=b.get("extra_srcs", ()), batch=b.get("batch", 24), localize=b.get("localize", True), w2c2_env=b.get("w2c2_env"))
+                          extra_srcs=b.get("extra_srcs", ()), batch=b.get("batch", 24), localize=b.get("localize", True), w2c2_env=b.get("w2c2_env"),
+                          run_env=b.get("run_env"))
         # a build configuration is only as parallel as it has batches: run several configurations side by side
         nb = max(1, (len(usable) + 23) // 24, sum(len(i["script"]) for i in usable) // 2500)
         results = pmap(build_one, builds, jobs=max(1, min(len(builds), NCPU // min(nb, NCPU) + 1)))
